@@ -200,7 +200,7 @@ def tab14(units, R):
                         cc = strip_casts(c)
                         if cc.get('k') == 'un' and cc['op'] == '!':
                             flag_arm = e_arm
-                        arms_ok = derives_from_source(flag_arm)
+                        arms_ok = derives_from_source(flag_arm) and flag_arm.get('k') != 'call'
                     ok = arms_ok and shared <= 1
                     why = 'shared only under cJSON_StringIsConst, otherwise a fresh copy' if ok else \
                         'pointer taken from the source without a copy'
